@@ -162,6 +162,9 @@ def load_known(prop: str) -> list[dict]:
 	return [e for e in data.get('findings', []) if e.get('property') == prop]
 
 
+CASE_PREDICATES: dict = {}   # known-finding id -> predicate(case) registered by the check module (constructs a regex cannot identify)
+
+
 def case_text(case) -> str:
 	if isinstance(case, dict) and isinstance(case.get('source'), str):
 		return case['source']
@@ -179,6 +182,13 @@ def match_known(entries: list[dict], sig: str, case=None) -> dict | None:
 			continue
 		if 'case_regex' in e and (case is None or not re.search(e['case_regex'], case_text(case))):
 			continue
+		pred = CASE_PREDICATES.get(e.get('id'))
+		if pred is not None:
+			try:
+				if case is None or not pred(case):
+					continue
+			except Exception:
+				continue  # a predicate that cannot judge the input never silences a failure
 		return e
 	return None
 
